@@ -716,7 +716,10 @@ std::pair<JunctionRef *, ConnRef *> ConnRef::splitAtSegment(
         // Create a new connection routing from the junction to the original
         // connector's endpoint.
         ConnEnd newConnSrc = ConnEnd(newJunction);
-        ConnEnd newConnDst = *m_dst_connend;
+        // (The original connector may end at a free point rather than
+        // being attached to a shape, pin or junction.)
+        ConnEnd newConnDst = (m_dst_connend) ? *m_dst_connend :
+                ConnEnd(m_dst_vert->point, m_dst_vert->visDirections);
         newConn = new ConnRef(router(), newConnSrc, newConnDst);
         
         // Reroute the endpoint of the original connector to attach to the
